@@ -1,0 +1,69 @@
+//go:build verif
+
+// Contracts for package clip, read by the VC generator in /verif (govc). Comments only.
+
+package clip
+
+// ---------------------------------------------------------------- region codes (loop-free, IEEE-754)
+// code 0 is exactly "inside the closed box"; each bit is exactly one strict comparison
+//@ func bitCode(b, p)
+//@   pure
+//@   ensures 0 <= result && result < 16
+//@   ensures !isnan(p[0]) && !isnan(p[1]) ==> (result == 0 <==> contains(b, p))
+//@   ensures (result % 2 == 1 <==> p[0] < b.Min[0]) && ((result / 2) % 2 == 1 <==> !(p[0] < b.Min[0]) && p[0] > b.Max[0])
+//@   ensures ((result / 4) % 2 == 1 <==> p[1] < b.Min[1]) && ((result / 8) % 2 == 1 <==> !(p[1] < b.Min[1]) && p[1] > b.Max[1])
+
+// the open code is 0 only strictly inside: open code 0 implies closed code 0
+//@ func bitCodeOpen(b, p)
+//@   pure
+//@   ensures 0 <= result && result < 16
+//@   ensures !isnan(p[0]) && !isnan(p[1]) && result == 0 ==> contains(b, p) && p[0] != b.Min[0] && p[0] != b.Max[0] && p[1] != b.Min[1] && p[1] != b.Max[1]
+
+// intersect panics only without any edge bit; the coordinate it clamps is exactly the edge value
+//@ func intersect(box, edge, a, b)
+//@   pure
+//@   requires 0 <= edge && edge < 16 && edge != 0
+//@   ensures (edge / 8) % 2 == 1 ==> same(result[1], box.Max[1])
+//@   ensures (edge / 8) % 2 == 0 && (edge / 4) % 2 == 1 ==> same(result[1], box.Min[1])
+//@   ensures (edge / 4) % 4 == 0 && (edge / 2) % 2 == 1 ==> same(result[0], box.Max[0])
+//@   ensures (edge / 2) % 8 == 0 && edge % 2 == 1 ==> same(result[0], box.Min[0])
+
+// ---------------------------------------------------------------- box intersection and point filtering
+//@ func Bound(b, bound)
+//@   pure
+//@   ensures isempty(b) ==> same(result, bound)
+//@   ensures !isempty(b) && isempty(bound) ==> same(result, b)
+//@   ensures nonanB(b) && nonanB(bound) && !isempty(b) && !isempty(bound) ==> result.Min[0] == fmax(b.Min[0], bound.Min[0]) && result.Min[1] == fmax(b.Min[1], bound.Min[1]) && result.Max[0] == fmin(b.Max[0], bound.Max[0]) && result.Max[1] == fmin(b.Max[1], bound.Max[1])
+
+//@ func MultiPoint(b, mp)
+//@   ensures forall k :: 0 <= k && k < len(result) ==> contains(b, result[k])
+//@   ensures len(result) <= len(mp)
+//@   loop 1: invariant -1 <= rangeindex && rangeindex < len(mp) && len(result) <= rangeindex + 1 && (result == nil || fresh(result) || result.ref == mp.ref)
+//@   loop 1: invariant forall k :: 0 <= k && k < len(result) ==> contains(b, result[k])
+
+// ---------------------------------------------------------------- the line clipper: memory safety and the edge-code discipline
+//@ func push(out, i, p)
+//@   requires 0 <= i && i <= len(out)
+//@   ensures len(result) >= i + 1 && len(result) >= len(out) && len(result) <= len(out) + 1
+
+// intersect is only ever called with a code that has an edge bit set (its panic is unreachable);
+// piece indices stay within the output built so far
+//@ func line(box, in, open)
+//@   loop 1: invariant 1 <= i && i <= loopTo && loopTo == len(in) && 0 <= line && line <= len(out) && 0 <= codeA && codeA < 16
+//@   loop 2: invariant 1 <= i && i < loopTo && loopTo == len(in) && 0 <= line && line <= len(out) && 0 <= codeA && codeA < 16 && 0 <= codeB && codeB < 16 && 0 <= endCode && endCode < 16
+
+// ---------------------------------------------------------------- the ring clipper (Sutherland-Hodgman passes)
+// the edge mask takes the values 1,2,4,8; every pass starts from a non-empty ring; intersect is
+// always called with one edge bit
+//@ func ring(box, in)
+//@   loop 1: invariant (edge == 1 || edge == 2 || edge == 4 || edge == 8 || edge == 16) && len(in) >= 1
+//@   loop 2: invariant (edge == 1 || edge == 2 || edge == 4 || edge == 8) && 0 <= i#1 && i#1 <= loopTo && loopTo == len(in) && loopTo >= 1
+
+//@ func LineString(b, ls, opts)
+//@   requires forall k :: 0 <= k && k < len(opts) ==> opts[k] != nil
+//@   opt funcsPreserve=S:orb.Point,S:orb.LineString,S:clip.Option
+//@   loop 1: invariant forall k :: 0 <= k && k < len(opts) ==> opts[k] != nil
+//@ func MultiLineString(b, mls, opts)
+//@   requires forall k :: 0 <= k && k < len(opts) ==> opts[k] != nil
+//@   opt funcsPreserve=S:orb.Point,S:orb.LineString,S:clip.Option
+//@   loop 1: invariant forall k :: 0 <= k && k < len(opts) ==> opts[k] != nil
